@@ -93,6 +93,89 @@ func (p *Program) UseScan(structKey, field string) []string {
 	return out
 }
 
+// UnlistedUsers filters the result of UseScan: a user that is not in `allowed` is still acceptable when it is a helper
+// that is verified in the context of an allowed function - it has no contract of its own (so it is inlined at its call
+// sites), it is only ever called directly, never spawned or used as a value, and every caller is allowed or itself such
+// a helper. What remains is returned.
+func (p *Program) UnlistedUsers(users []string, allowed map[string]bool) []string {
+	ok := map[string]bool{}
+	for a := range allowed {
+		ok[a] = true
+	}
+	callers := map[string]map[string]bool{} // callee key -> caller keys (direct static calls)
+	tainted := map[string]bool{}            // used as a value, deferred/spawned indirectly, or called dynamically
+	for f := range ssautil.AllFunctions(p.Prog) {
+		if !p.InRepo(f) || f.Blocks == nil {
+			continue
+		}
+		fk := FuncKey(f)
+		for _, b := range f.Blocks {
+			for _, ins := range b.Instrs {
+				var direct *ssa.Function
+				switch x := ins.(type) {
+				case *ssa.Call:
+					direct = x.Common().StaticCallee()
+				case *ssa.Defer:
+					direct = x.Common().StaticCallee()
+				case *ssa.Go:
+					if g := x.Common().StaticCallee(); g != nil {
+						tainted[FuncKey(g)] = true
+					}
+				}
+				if direct != nil {
+					k := FuncKey(direct)
+					if callers[k] == nil {
+						callers[k] = map[string]bool{}
+					}
+					callers[k][fk] = true
+				}
+				// any other mention of a function value
+				for _, op := range ins.Operands(nil) {
+					if op == nil || *op == nil {
+						continue
+					}
+					if g, isFn := (*op).(*ssa.Function); isFn && g != direct {
+						tainted[FuncKey(g)] = true
+					}
+				}
+			}
+		}
+	}
+	changed := true
+	for changed {
+		changed = false
+		for _, u := range users {
+			if ok[u] || tainted[u] {
+				continue
+			}
+			if _, contracted := p.CS.Funcs[u]; contracted {
+				continue
+			}
+			cs := callers[u]
+			if len(cs) == 0 {
+				continue
+			}
+			all := true
+			for c := range cs {
+				if !ok[c] {
+					all = false
+				}
+			}
+			if all {
+				ok[u] = true
+				changed = true
+			}
+		}
+	}
+	var bad []string
+	for _, u := range users {
+		if !ok[u] {
+			bad = append(bad, u)
+		}
+	}
+	return bad
+}
+
 // GlobalStores lists the /repo functions other than package initialisers that store to a package-level variable.
 func (p *Program) GlobalStores() map[string][]string {
 	out := map[string][]string{}
